@@ -62,8 +62,12 @@ impl IntoMessage for EmitEvent {
 }
 
 impl ServiceInfo {
+    // whether the service supports all-events subscriptions (a field of the opaque ServiceInfo)
+    pub uninterp spec fn spec_subscribe_all(self) -> Option<bool>;
     #[verifier::external_body]
-    pub fn subscribe_all(self) -> (r: Option<bool>) { unimplemented!() }
+    pub fn subscribe_all(self) -> (r: Option<bool>)
+        ensures r == self.spec_subscribe_all()
+    { unimplemented!() }
 }
 
 //@include _shared/registry_preamble_b.rs
@@ -290,6 +294,17 @@ impl Broker {
                         && final(self).conns@[*id].all_events@ == old(self).conns@[*id].all_events@.insert(req.service_cookie)
                         && final(self).conns@[*id].rest_eq(&old(self).conns@[*id], 4) && final(self).conn_events_same(old(self), *id))
             },
+            // it IS recorded (on both sides) whenever the request carries a serial, both sides speak protocol >= 1.18 and the service is
+            // live and supports all-events subscriptions; the only way out is an undeliverable reply
+            (old(self).conns@.contains_key(*id) && old(self).svc_uuids@.contains_key(req.service_cookie) && req.serial is Some
+                && old(self).conns@[*id].version.allows(18)
+                && old(self).svc_uuids@[req.service_cookie].2.spec_subscribe_all() == Some(true)
+                && old(self).conns@[old(self).objs@[old(self).skey(req.service_cookie).0].conn_id].version.allows(18)) ==> {
+                let k = old(self).skey(req.service_cookie);
+                ||| (r is Err && final(self).unchanged(old(self)))
+                ||| (r is Ok && final(self).svcs@[k].all_events@ == old(self).svcs@[k].all_events@.insert(*id)
+                        && final(self).conns@[*id].all_events@ == old(self).conns@[*id].all_events@.insert(req.service_cookie))
+            },
             final(self).stat_same(old(self)),   // no counter is touched
             // the invariant last (the frame facts above are then available), conjunct by conjunct (one query each
             // keeps the solver stable), then as a whole
@@ -314,6 +329,16 @@ impl Broker {
                         && final(self).svcs@[k].subscriptions == old(self).svcs@[k].subscriptions
                         && final(self).conns@[*id].all_events@ == old(self).conns@[*id].all_events@.remove(req.service_cookie)
                         && final(self).conns@[*id].rest_eq(&old(self).conns@[*id], 4) && final(self).conn_events_same(old(self), *id))
+            },
+            // it IS removed whenever both sides speak protocol >= 1.18 and the service is live - with or without a serial (the client
+            // library sends the serial-less form when a proxy is dropped); the only way out is an undeliverable reply
+            (old(self).conns@.contains_key(*id) && old(self).svc_uuids@.contains_key(req.service_cookie)
+                && old(self).conns@[*id].version.allows(18)
+                && old(self).conns@[old(self).objs@[old(self).skey(req.service_cookie).0].conn_id].version.allows(18)) ==> {
+                let k = old(self).skey(req.service_cookie);
+                ||| (r is Err && req.serial is Some && final(self).unchanged(old(self)))
+                ||| (r is Ok && final(self).svcs@[k].all_events@ == old(self).svcs@[k].all_events@.remove(*id)
+                        && final(self).conns@[*id].all_events@ == old(self).conns@[*id].all_events@.remove(req.service_cookie))
             },
             final(self).stat_same(old(self)),   // no counter is touched
             // the invariant last (the frame facts above are then available), conjunct by conjunct (one query each
